@@ -96,7 +96,7 @@ def json_short(x):
 
 SYS_TRUST = [
     "model coq/Model/Sys.v is hand-written from cache/http_cache.go (Get/get/HitForPass/Cacheable/Age/initFromStore/saveToStore), server/cache.go (middleware incl. deferred HitForPass) and the dispatcher lookup/purge; one key per model instance, eviction/purge/restart/store loss as environment labels",
-    "critical sections without blocking operations are atomic steps (sync.RWMutex gives mutual exclusion; the lock/field-access skeleton regenerated from the source is checked under C20)",
+    "critical sections without blocking operations are atomic steps (sync.RWMutex gives mutual exclusion; the lock/field-access skeleton regenerated from the source is checked under C20; that lookup-or-create, purge and the completion of a fetch are ONE critical section each is checked per run by the verified analysis of coq/Proofs/Atomic.v under C01 / C18 / C02)",
     "tied to the code by the flight family (real middleware + dispatcher + fake store under testing/synctest, observation of every request at quiescence after every op) the wakeup family (choreographed wake-up/expiry window under GOMAXPROCS=1) and the choreo family (critical sections of the entry / shard lock forced into a chosen order through sync.Mutex's starvation-mode hand-off, every operation descheduled right after its Unlock; purge held inside store.Delete)",
     "Go runtime: channel rendezvous, deferred calls run on error return and panic, testing/synctest's fake clock and quiescence detection",
 ]
